@@ -35,6 +35,22 @@ func root(e ast.Expr) *ast.Ident {
 	}
 }
 
+var basic = map[string]bool{"string": true, "bool": true, "rune": true, "byte": true, "int": true, "int8": true, "int16": true,
+	"int32": true, "int64": true, "uint": true, "uint8": true, "uint16": true, "uint32": true, "uint64": true, "uintptr": true,
+	"float32": true, "float64": true}
+
+func plain(t ast.Expr) bool {
+	switch x := t.(type) {
+	case *ast.Ident:
+		return basic[x.Name]
+	case *ast.ArrayType:
+		return x.Len != nil && plain(x.Elt)
+	case *ast.ParenExpr:
+		return plain(x.X)
+	}
+	return false
+}
+
 func main() {
 	for _, path := range os.Args[1:] {
 		fset := token.NewFileSet()
@@ -44,18 +60,34 @@ func main() {
 			continue
 		}
 		pkgVars := map[*ast.Object]string{}
+		var writes, gos []string
 		for _, d := range f.Decls {
 			if g, ok := d.(*ast.GenDecl); ok && g.Tok == token.VAR {
 				for _, sp := range g.Specs {
-					for _, nm := range sp.(*ast.ValueSpec).Names {
+					vs := sp.(*ast.ValueSpec)
+					for i, nm := range vs.Names {
 						if nm.Obj != nil {
 							pkgVars[nm.Obj] = nm.Name
+						}
+						// a package-level variable must be a plain value (basic type or array of such): anything that
+						// can hold or hand out a reference (map, slice, pointer, chan, func, interface, struct such as
+						// sync.Pool, or a type this tool cannot see through) is shared mutable state
+						t := vs.Type
+						if t == nil && i < len(vs.Values) {
+							if cl, ok := vs.Values[i].(*ast.CompositeLit); ok {
+								t = cl.Type
+							} else if bl, ok := vs.Values[i].(*ast.BasicLit); ok {
+								_ = bl
+								t = ast.NewIdent("string")
+							}
+						}
+						if !plain(t) {
+							writes = append(writes, fmt.Sprintf("%s:reference-typed@%d", nm.Name, fset.Position(nm.Pos()).Line))
 						}
 					}
 				}
 			}
 		}
-		var writes, gos []string
 		check := func(e ast.Expr, pos token.Pos) {
 			if id := root(e); id != nil && id.Obj != nil {
 				if nm, ok := pkgVars[id.Obj]; ok {
@@ -79,6 +111,10 @@ func main() {
 				}
 			case *ast.SliceExpr: // a slice of a package-level array aliases it
 				check(x.X, x.Pos())
+			case *ast.CallExpr: // a method called on a package-level variable may have a pointer receiver
+				if sel, ok := x.Fun.(*ast.SelectorExpr); ok {
+					check(sel.X, x.Pos())
+				}
 			case *ast.GoStmt:
 				gos = append(gos, fmt.Sprint(fset.Position(x.Pos()).Line))
 			}
